@@ -84,6 +84,7 @@ func c12TrackerResetTotal(p *Prog) *RuleResult {
 		return r
 	}
 	whole, elems := 0, 0
+	wholeOf, elemOf := map[string]bool{}, map[string]bool{} // tracker types with a whole-array reset / an element store
 	for _, fn := range p.ModuleFuncs() {
 		if pkgPathOf(fn) != modPath+"/internal/css_parser" {
 			continue
@@ -125,6 +126,7 @@ func c12TrackerResetTotal(p *Prog) *RuleResult {
 			case *ssa.FieldAddr:
 				if isTrackerArray(a) && isZero(st.Val) {
 					whole++
+					wholeOf[namedTypeName(a.X.Type())] = true
 				}
 			case *ssa.IndexAddr:
 				fa, ok := a.X.(*ssa.FieldAddr)
@@ -132,6 +134,7 @@ func c12TrackerResetTotal(p *Prog) *RuleResult {
 					return
 				}
 				elems++
+				elemOf[namedTypeName(fa.X.Type())] = true
 				r.Instances++
 				key := FuncName(fn) + " stores into one element of " + namedTypeName(fa.X.Type()) + "." + fieldAddrName(fa)
 				if isZero(st.Val) {
@@ -146,10 +149,18 @@ func c12TrackerResetTotal(p *Prog) *RuleResult {
 	for i := 0; i < whole; i++ {
 		r.OK(fmt.Sprintf("whole-array reset #%d", i+1), true, "zero value stored to the whole state array")
 	}
-	if !r.Anchor("tracker state stores (whole-array resets and element stores)", whole >= 4 && elems >= 2) {
+	// every tracker type whose elements are stored has a way to forget all of them (the resets may be
+	// written at each site or once in a method of the tracker)
+	allHaveReset := len(elemOf) >= 2
+	for t := range elemOf {
+		if !wholeOf[t] {
+			allHaveReset = false
+		}
+	}
+	if !r.Anchor("tracker state stores (whole-array resets and element stores)", allHaveReset && elems >= 2) {
 		return r
 	}
-	r.Floor(6)
+	r.Floor(4)
 	return r
 }
 
@@ -379,6 +390,54 @@ var _ = sort.Strings
 // which of the two wins. The declaration loop must therefore forget a family's tracker whenever it
 // meets another property of the same family: for each tracker there is a whole-array reset that is
 // control dependent on a prefix test of the property name with the family's prefix.
+// isWholeTrackerReset: the instruction stores the zero value to the whole [4] state array of the
+// tracker tr — directly, or by calling a method of the tracker that does so on every path to its
+// return (the reset written once as `func (t *tracker) reset()`).
+func isWholeTrackerReset(in ssa.Instruction, tr ssa.Value) bool {
+	zeroStoreTo := func(in ssa.Instruction, base ssa.Value) bool {
+		st, ok := in.(*ssa.Store)
+		if !ok {
+			return false
+		}
+		fa, ok := st.Addr.(*ssa.FieldAddr)
+		if !ok || fa.X != base || !strings.HasPrefix(typeOfFieldAddr(fa), "[4]") {
+			return false
+		}
+		c, ok := st.Val.(*ssa.Const)
+		return ok && c.Value == nil
+	}
+	if zeroStoreTo(in, tr) {
+		return true
+	}
+	c, ok := in.(*ssa.Call)
+	if !ok || len(c.Call.Args) == 0 || c.Call.Args[0] != tr {
+		return false
+	}
+	callee := c.Call.StaticCallee()
+	if callee == nil || len(callee.Blocks) == 0 || len(callee.Params) == 0 || callee.Signature.Recv() == nil {
+		return false
+	}
+	for _, b := range callee.Blocks {
+		for _, ci := range b.Instrs {
+			if !zeroStoreTo(ci, callee.Params[0]) {
+				continue
+			}
+			all := true
+			for _, rb := range callee.Blocks {
+				if len(rb.Instrs) > 0 {
+					if _, isRet := rb.Instrs[len(rb.Instrs)-1].(*ssa.Return); isRet && !(b == rb || b.Dominates(rb)) {
+						all = false
+					}
+				}
+			}
+			if all {
+				return true
+			}
+		}
+	}
+	return false
+}
+
 func c12LogicalAliasesReset(p *Prog) *RuleResult {
 	r := NewRule("C12/R8 logical-aliases-reset-trackers", "every shorthand tracker of the CSS minifier is reset when a declaration of another property of its family (a logical alias such as margin-block-start) is met")
 	ap := p.ByPath[modPath+"/internal/css_ast"]
@@ -434,15 +493,7 @@ func c12LogicalAliasesReset(p *Prog) *RuleResult {
 		tr := trackers[fam.shorthand]
 		ok := false
 		eachInstr(host, func(b *ssa.BasicBlock, in ssa.Instruction) {
-			st, isSt := in.(*ssa.Store)
-			if !isSt {
-				return
-			}
-			fa, isFA := st.Addr.(*ssa.FieldAddr)
-			if !isFA || fa.X != tr || !strings.HasPrefix(typeOfFieldAddr(fa), "[4]") {
-				return
-			}
-			if c, isC := st.Val.(*ssa.Const); !isC || c.Value != nil {
+			if !isWholeTrackerReset(in, tr) {
 				return
 			}
 			for _, ifi := range controlDepIfsTransitive(b) {
@@ -471,15 +522,7 @@ func c12LogicalAliasesReset(p *Prog) *RuleResult {
 			tr := trackers[fam.shorthand]
 			ok := false
 			eachInstr(host, func(b *ssa.BasicBlock, in ssa.Instruction) {
-				st, isSt := in.(*ssa.Store)
-				if !isSt {
-					return
-				}
-				fa, isFA := st.Addr.(*ssa.FieldAddr)
-				if !isFA || fa.X != tr || !strings.HasPrefix(typeOfFieldAddr(fa), "[4]") {
-					return
-				}
-				if c, isC := st.Val.(*ssa.Const); !isC || c.Value != nil {
+				if !isWholeTrackerReset(in, tr) {
 					return
 				}
 				for _, f := range factsAt(b) {
